@@ -22,7 +22,8 @@ Proof.
     assert (lookup (k_tab s') sv = Some (mkEnt (e_ofd en) true)) as Hsv.
     { rewrite Hupd. destruct (N.eqb_spec sv n); [congruence|].
       rewrite lookup_tset, N.eqb_refl. reflexivity. }
-    rewrite Hsv. rewrite (below_limit_lookup _ _ _ _ Hb Hln). cbn [fst e_ofd].
+    rewrite Hsv. destruct (N.eqb_spec sv n) as [|_]; [congruence|].
+    rewrite (below_limit_lookup _ _ _ _ Hb Hln). cbn [fst e_ofd].
     apply sorted_ext; [apply sorted_tdel, sorted_tset; assumption|assumption|].
     intros fd. rewrite lookup_tdel by (apply sorted_tset; assumption). rewrite lookup_tset.
     destruct (N.eqb_spec sv fd) as [<-|Hfd]; [symmetry; assumption|].
